@@ -5,6 +5,7 @@ BooleanBinaryOp (&& ||), UnaryOp (- ~), CompareOp (== != < <= > >=), CompoundAss
 The specification of the function *named* operator<op> is `result == a <op> b` written with the plain C operator
 on the same operand types (C and C++ agree on integer promotion / usual arithmetic conversion); the result type is
 compared with the type of the plain expression by a _Static_assert in the harness."""
+import vlib.replay_c09  # registers native replay kinds (numeric_op)
 from vlib.unit import Unit, Inst
 from .common import cs, PRE_GHOST, mi
 
@@ -132,18 +133,23 @@ def binop_inst(op, lk, ta, rk, tb, tier):
     rt = result_type(op, ta, tb)
     A = operand(lk, ta, '$this')
     B = operand(rk, tb, '$0')
+    # tainted_volatile's binary & is re-declared next to its unary & (rlbox_detail_forward_binop_to_base) and takes its right
+    # operand by value
+    byval = (op == '&' and lk == 'tainted_volatile' and rk == 'plain')
+    if byval:
+        B = '$0'
     crt = TY[rt][0]
     hint = (op in CMP) and ('tainted_volatile' in (lk, rk))
     res = '$ret.val' if hint else '$ret.data'
     expect = '((%s)(%s %s %s))' % (crt, A, op, B)
-    cl = [('objs', '__CPROVER_requires(__CPROVER_r_ok((const struct %s *)$this, sizeof(struct %s)) && __CPROVER_r_ok($0, sizeof(*$0)))' % (wrap_struct(lk, ta), wrap_struct(lk, ta))),
+    cl = [('objs', '__CPROVER_requires(__CPROVER_r_ok((const struct %s *)$this, sizeof(struct %s))%s)' % (wrap_struct(lk, ta), wrap_struct(lk, ta), '' if byval else ' && __CPROVER_r_ok($0, sizeof(*$0))')),
           ('plain_expression_defined', '__CPROVER_requires(%s)' % defined(op, ta, tb, A, B)),
           ('value', '__CPROVER_ensures(%s)' % same(res, expect, rt)),
           ('frame', '__CPROVER_assigns()')]
     d1, p1 = operand_decl(lk, ta, 'a')
     d2, p2 = operand_decl(rk, tb, 'b')
     RS = 'tainted_boolean_hint' if hint else 'rlbox::tainted<%s, rlbox::vsbx>' % rt
-    h = d1 + d2 + '  __auto_type r = $ROOT((void *)&a, &b);\n'
+    h = d1 + d2 + '  __auto_type r = $ROOT((void *)&a, %sb);\n' % ('' if byval else '&')
     if not hint:
         h += '  __CPROVER_assert(__builtin_types_compatible_p(__typeof__(r.data), %s), "C16 result type equals the type of the plain expression");\n' % crt
     name = 'c16_%s_%s_%s__%s_%s' % (OPN[op], lk[8:] or 't', ta.replace(' ', ''), rk if rk == 'plain' else (rk[8:] or 't'), tb.replace(' ', ''))
